@@ -55,6 +55,20 @@ pub struct Ctx {
     pub trace_calls: bool,
     pub model_steps: u64,
     pub exhaustive_parts: Vec<String>,
+    /// a sample of calls whose outcome agreed with the model (rule, data, outcome key): replayed
+    /// concurrently at the end of the run (props_c17::concurrent_replay)
+    pub replay_pool: Vec<(Value, Value, String)>,
+    replay_seen: u64,
+}
+
+pub const REPLAY_POOL_MAX: usize = 2500;
+
+pub fn outcome_key_plain(o: &Outcome) -> String {
+    match o {
+        Outcome::Ok(v) => format!("ok:{}", v),
+        Outcome::Err(_) => "err".to_string(),
+        Outcome::Panic(_) => "panic".to_string(),
+    }
 }
 
 pub fn type_name(v: &Value) -> &'static str {
@@ -104,6 +118,8 @@ impl Ctx {
             trace_calls: std::env::var("JL_TRACE").is_ok(),
             model_steps: 0,
             exhaustive_parts: Vec::new(),
+            replay_pool: Vec::new(),
+            replay_seen: 0,
         }
     }
 
@@ -287,6 +303,7 @@ impl Ctx {
                     self.violation(monitor, &sig, rule, data, model_json(mo), obs.out.brief(), "result differs from the reference semantics");
                     return;
                 }
+                self.remember_for_replay(rule, data, &obs.out);
             }
             (MOut::Val(_), Outcome::Err(_)) => {
                 self.mon(monitor).judged += 1;
@@ -302,6 +319,7 @@ impl Ctx {
             }
             (MOut::Err, Outcome::Err(_)) => {
                 self.mon(monitor).judged += 1;
+                self.remember_for_replay(rule, data, &obs.out);
             }
         }
         // ---- effect (log trace) judgement
@@ -321,6 +339,36 @@ impl Ctx {
                 self.violation(monitor, &sig, rule, data, exp, json!({"lines": obs.logs, "outcome": obs.out.brief()}),
                     "log lines printed by the call differ from what the statements allow");
             }
+        }
+    }
+
+    /// Reservoir sample (deterministic in the seed) of small judged-and-agreeing calls.
+    fn remember_for_replay(&mut self, rule: &Value, data: &Value, out: &Outcome) {
+        self.replay_seen += 1;
+        let n = self.replay_seen;
+        // cheap pre-filter before any text is produced: a 1-in-k thinning once the pool is full
+        if self.replay_pool.len() >= REPLAY_POOL_MAX {
+            let h = n.wrapping_mul(0x9E3779B97F4A7C15) ^ self.seed;
+            if (h >> 20) % (n / REPLAY_POOL_MAX as u64 + 1) != 0 {
+                return;
+            }
+        }
+        if refsem::nested_deeper_than(rule, 40) || refsem::nested_deeper_than(data, 40) {
+            return;
+        }
+        let key = outcome_key_plain(out);
+        if key.len() > 4096 {
+            return;
+        }
+        let rt = rule.to_string();
+        if rt.len() + data.to_string().len() > 6000 || rt.contains("\"log\"") {
+            return;
+        }
+        if self.replay_pool.len() < REPLAY_POOL_MAX {
+            self.replay_pool.push((rule.clone(), data.clone(), key));
+        } else {
+            let slot = (n.wrapping_mul(0xD1B54A32D192ED03) >> 11) as usize % REPLAY_POOL_MAX;
+            self.replay_pool[slot] = (rule.clone(), data.clone(), key);
         }
     }
 
